@@ -24,6 +24,7 @@ import (
 	"fmt"
 	"io"
 	"net/http"
+	"net/http/httptest"
 	"net/url"
 	"os"
 	"runtime"
@@ -65,6 +66,7 @@ type c11Case struct {
 	Gz      int        `json:"gz,omitempty"`      // long/conc: 0 plain, 1 gzip
 	Barrier bool       `json:"barrier,omitempty"` // conc: rendezvous of all requests inside their 2nd Read (after the copy)
 	G       [][]c11Req `json:"g,omitempty"`       // conc: per goroutine its successive requests
+	Ctype   int        `json:"ctype,omitempty"`   // long / srv: 0 = plugin without meta, no Content-Type; 1..5 = plugin WITH meta, c11CTypes[ctype-1]
 	Mes     int        `json:"mes,omitempty"`     // long: max_event_size of the pipeline: 1 longest line - 1, 2 half of it, 3 the read-buffer size (if below), 4 the longest line
 	Size    int        `json:"size,omitempty"`    // ratio: decompressed size aimed at (every terminated line is repeated to get there)
 	Ratio   int        `json:"ratio,omitempty"`   // ratio: decompressed size / compressed size aimed at (0: as compressible as it gets)
@@ -468,8 +470,12 @@ type c11Plug struct {
 	rec  *c11Rec
 	path string
 	cfg  int
+	ctype string // Content-Type of the next requests ("" = none)
+	query string // raw URL query of the next requests
 	mes  int // the pipeline's max_event_size the plugin was started with (0 = unlimited)
 }
+
+var c11CTypes = [...]string{"", "application/json", "text/plain", "application/x-www-form-urlencoded", "multipart/form-data; boundary=verifboundary"}
 
 var c11PlugSeq int64
 
@@ -486,6 +492,15 @@ func c11NewPlugM(cfgIdx, mes int) *c11Plug {
 	if cfgIdx&2 != 0 {
 		config.EmulateMode = "elasticsearch"
 		path = "/_bulk"
+	}
+	if cfgIdx&4 != 0 { // the `meta` option: templates over the request's params, headers, method, remote address, login
+		config.Meta = cfg.MetaTemplates{
+			"remote_addr": "{{ .remote_addr }}",
+			"method":      "{{ .request.Method }}",
+			"login":       "{{ .login }}",
+			"params":      "{{ .params }}",
+			"ctype":       `{{ .request.Header.Get "Content-Type" }}`,
+		}
 	}
 	if err := cfg.SetDefaultValues(config); err != nil {
 		panic(err)
@@ -536,7 +551,7 @@ func (pl *c11Plug) serve(body *c11Body, gz bool) (res c11Result) {
 func (pl *c11Plug) serveCL(body *c11Body, gz bool, contentLength int64) (res c11Result) {
 	req := &http.Request{
 		Method:     http.MethodPost,
-		URL:        &url.URL{Path: pl.path},
+		URL:        &url.URL{Path: pl.path, RawQuery: pl.query},
 		Proto:      "HTTP/1.1",
 		ProtoMajor: 1,
 		ProtoMinor: 1,
@@ -551,6 +566,9 @@ func (pl *c11Plug) serveCL(body *c11Body, gz bool, contentLength int64) (res c11
 	}
 	if gz {
 		req.Header.Set("Content-Encoding", "gzip")
+	}
+	if pl.ctype != "" {
+		req.Header.Set("Content-Type", pl.ctype)
 	}
 	w := &c11Writer{rec: pl.rec, hdr: http.Header{}}
 	res.start = pl.rec.length()
@@ -604,6 +622,10 @@ type c11Stats struct {
 	GzCutHeader      int    `json:"gzip_payload_cut_inside_header"`
 	GzCutData        int    `json:"gzip_payload_cut_inside_deflate_data"`
 	GzCutTrailer     int    `json:"gzip_payload_cut_inside_trailer"`
+	MetaRequests     int    `json:"requests_through_plugin_with_meta_option"`
+	MetaFormRequests int    `json:"requests_with_meta_and_urlencoded_content_type"`
+	SrvRequests      int    `json:"requests_through_real_http_server"`
+	SrvFormRequests  int    `json:"requests_through_real_http_server_urlencoded"`
 	MesRequests      int    `json:"requests_with_max_event_size_set"`
 	MesBelow         int    `json:"requests_with_max_event_size_below_their_longest_line"`
 	MesBelowCross    int    `json:"requests_with_over_limit_line_crossing_a_read_boundary"`
@@ -682,6 +704,8 @@ func c11Shape(r *c11Req, st *c11Stats) {
 
 type c11Worker struct {
 	plugs [4]*c11Plug
+	srv     *httptest.Server // a real net/http server in front of srvPlug (family "srv")
+	srvPlug *c11Plug
 	extra map[[2]int]*c11Plug // plugins started with a max_event_size, by (configuration, limit)
 	gz    c11Gz
 	st    c11Stats
@@ -774,6 +798,8 @@ type c11Variant struct {
 	scale int
 	unlim bool
 	alpha c11Alpha
+	meta  bool // the plugin is started with the `meta` option
+	ctype int  // index into c11CTypes
 	mes   int  // max_event_size of the pipeline the plugin is started with (0 = unlimited)
 	trunc bool // gzip only: the payload is cut short (header / deflate data / trailer) although the transport ends with a clean io.EOF
 }
@@ -973,6 +999,16 @@ func (w *c11Worker) run(c *c11Case) {
 			variants = append(variants, c11Variant{name: "gzip", gz: true, scale: 1, alpha: c11Small})
 			variants = append(variants, c11Variant{name: "gzip-truncated", gz: true, scale: 1, alpha: c11Small, trunc: true})
 		}
+		// the same replay through a plugin WITH the meta option, with a Content-Type and a URL query: what is handed over
+		// depends on the body bytes alone
+		{
+			ct := (c.ID / 2) % len(c11CTypes)
+			v := c11Variant{name: "plain meta content-type=" + c11CTypes[ct], scale: 1, alpha: c11Small, meta: true, ctype: ct}
+			if c.ID%2 == 1 && c.Only != "plain" || c.Only == "gzip" {
+				v.name, v.gz = "gzip meta content-type="+c11CTypes[ct], true
+			}
+			variants = append(variants, v)
+		}
 		// the same replay under a pipeline with max_event_size below / equal to / above the longest line of the case
 		longest := 0
 		for i := range c.Reqs {
@@ -1038,19 +1074,32 @@ func (w *c11Worker) run(c *c11Case) {
 				mes = 0
 			}
 		}
-		variants = append(variants, c11Variant{name: name, gz: c.Gz == 1, scale: c.Scale, unlim: c.Unlim, alpha: c11Long, trunc: c.Trunc && c.Gz == 1, mes: mes})
+		lv := c11Variant{name: name, gz: c.Gz == 1, scale: c.Scale, unlim: c.Unlim, alpha: c11Long, trunc: c.Trunc && c.Gz == 1, mes: mes}
+		if c.Ctype > 0 {
+			lv.meta, lv.ctype = true, (c.Ctype-1)%len(c11CTypes)
+			lv.name += " meta content-type=" + c11CTypes[lv.ctype]
+		}
+		variants = append(variants, lv)
 	}
 	if c.Fam == "ratio" {
 		w.runRatio(w.plugs[c.ID%4], c)
 		return
 	}
+	if c.Fam == "srv" {
+		w.runSrv(c)
+		return
+	}
 	for _, v := range variants {
 		pl := w.plugs[c.ID%4]
-		if v.mes > 0 {
-			if c.Fam == "long" { // limits of all sizes: a plugin of its own
-				pl = c11NewPlugM(c.ID%4, v.mes)
+		pcfg := c.ID % 4
+		if v.meta {
+			pcfg |= 4
+		}
+		if v.mes > 0 || v.meta {
+			if c.Fam == "long" && v.mes > 0 { // limits of all sizes: a plugin of its own
+				pl = c11NewPlugM(pcfg, v.mes)
 			} else {
-				key := [2]int{c.ID % 4, v.mes}
+				key := [2]int{pcfg, v.mes}
 				if w.extra == nil {
 					w.extra = map[[2]int]*c11Plug{}
 				}
@@ -1060,6 +1109,14 @@ func (w *c11Worker) run(c *c11Case) {
 				pl = w.extra[key]
 			}
 		}
+		pl.ctype, pl.query = "", ""
+		if v.meta {
+			pl.ctype, pl.query = c11CTypes[v.ctype], "q=1&b=x%3Dy&b=z"
+			w.st.MetaRequests += len(c.Reqs)
+			if v.ctype == 3 {
+				w.st.MetaFormRequests += len(c.Reqs)
+			}
+		}
 		mms := w.runSeq(pl, c, v, true)
 		if v.mes > 0 && c.Fam == "long" {
 			pl.p.Stop()
@@ -1067,6 +1124,7 @@ func (w *c11Worker) run(c *c11Case) {
 		for _, m := range mms {
 			// does it need the state left behind by earlier cases? re-run on a fresh plugin of the same configuration
 			fresh := c11NewPlugM(pl.cfg, pl.mes)
+			fresh.ctype, fresh.query = pl.ctype, pl.query
 			again := w.runSeq(fresh, c, v, false)
 			fresh.p.Stop()
 			ok := false
@@ -1221,6 +1279,79 @@ func (w *c11Worker) runRatio(pl *c11Plug, c *c11Case) {
 			c11Diff(c11Datas(calls), want), len(calls), len(want), ratio)))
 	case res.status == http.StatusOK && res.statusAt < res.end:
 		w.mms = append(w.mms, mk("ok_before_all_lines", ""))
+	}
+}
+
+// The request goes over a real TCP connection to a real net/http server in front of the plugin (started with the meta
+// option): net/http's own handling of the body, of Content-Length / chunked transfer and of the headers applies.
+func (w *c11Worker) runSrv(c *c11Case) {
+	if w.srv == nil {
+		w.srvPlug = c11NewPlugM(4, 0)
+		w.srv = httptest.NewServer(w.srvPlug.p)
+	}
+	pl := w.srvPlug
+	r := &c.Reqs[0]
+	scale := c.Scale
+	if scale < 1 {
+		scale = 1
+	}
+	alpha := c11Small
+	if scale > 1 {
+		alpha = c11Long
+	}
+	body := c11Bytes(r.Body, scale, alpha)
+	want := c11Lines(r.Exp, scale, alpha)
+	wire := body
+	if c.Gz == 1 {
+		wire = w.gz.compress(body, c11ByteSizes(r, scale), c.ID%3)
+	}
+	var rd io.Reader = bytes.NewReader(wire) // Content-Length
+	if c.ID%2 == 1 {
+		rd = io.MultiReader(bytes.NewReader(wire)) // length unknown: chunked transfer
+	}
+	ct := 0
+	if c.Ctype > 0 {
+		ct = (c.Ctype - 1) % len(c11CTypes)
+	}
+	req, err := http.NewRequest(http.MethodPost, w.srv.URL+"/?q=1&b=x%3Dy", rd)
+	if err != nil {
+		panic(err)
+	}
+	if c11CTypes[ct] != "" {
+		req.Header.Set("Content-Type", c11CTypes[ct])
+	}
+	if c.Gz == 1 {
+		req.Header.Set("Content-Encoding", "gzip")
+	}
+	w.st.Requests++
+	w.st.SrvRequests++
+	if ct == 3 {
+		w.st.SrvFormRequests++
+	}
+	pl.rec.reset()
+	resp, err := w.srv.Client().Do(req)
+	status := 0
+	if err == nil {
+		_, _ = io.Copy(io.Discard, resp.Body)
+		_ = resp.Body.Close()
+		status = resp.StatusCode
+	}
+	calls := pl.rec.slice(0, pl.rec.length()) // the response was received: the handler is past its In calls
+	pl.rec.reset()
+	if status == http.StatusOK {
+		w.st.OK200++
+	} else {
+		w.st.Non200++
+		w.st.Non200Clean++
+	}
+	if !c11Equal(calls, want) {
+		detail := c11Diff(c11Datas(calls), want)
+		if err != nil {
+			detail += " [client error: " + err.Error() + "]"
+		}
+		w.mms = append(w.mms, &c11Mismatch{Kind: "lines_differ", Fam: c.Fam, Variant: "http server meta content-type=" + c11CTypes[ct],
+			Cfg: pl.cfg, End: r.End, Status: status, NCalls: len(calls), Want: c11Trim(want), Got: c11Trim(c11Datas(calls)),
+			Detail: detail, Case: c})
 	}
 }
 
@@ -1656,7 +1787,7 @@ func TestVerifC11(t *testing.T) {
 			t.Fatalf("bad case line: %v", err)
 		}
 		switch c.Fam {
-		case "serial", "long", "ratio":
+		case "serial", "long", "ratio", "srv":
 			seq = append(seq, c)
 		case "conc":
 			conc = append(conc, c)
@@ -1702,6 +1833,10 @@ func TestVerifC11(t *testing.T) {
 		}
 		for _, pl := range w.extra {
 			pl.p.Stop()
+		}
+		if w.srv != nil {
+			w.srv.Close()
+			w.srvPlug.p.Stop()
 		}
 		total.add(&w.st)
 		nmm += len(w.mms)
